@@ -53,8 +53,8 @@ PROPS = {
     },
     'C05': {
         'theorems': ['no_hidden_state', 'redirect_renews', 'writes_only_under_issued', 'cookie_name_host_prefix', 'cookie_name_is_token', 'set_cookie_shape', 'directives_match_source', 'name_parts_match_source', 'logout_expires_cookie',
-                     'code_cookie_name_host_prefix', 'code_set_cookie_shape', 'code_session_id_from_cookie'],
-        'translated': ['getCookieName', 'getCookieDirectives', 'generateSetCookieHeader', 'getSessionIDFromCookie', 'DecodeCookiesHeader', 'EncodeCookieHeader'],
+                     'code_cookie_name_host_prefix', 'code_set_cookie_shape', 'code_session_id_from_cookie', 'code_accepted_prefix_is_token'],
+        'translated': ['getCookieName', 'getCookieDirectives', 'generateSetCookieHeader', 'getSessionIDFromCookie', 'DecodeCookiesHeader', 'EncodeCookieHeader', 'isCookieNameToken'],
         'trusted': ['hand-written interaction-tree model of Process/redirectToIDP/retrieveTokens/refreshToken (AuthModel/Oidc/Handler.lean), tied to the code by the differential run (response + ordered action trace per request line)', 'oracles: jwt parsing and claims (jwx), JWS verification (checked against an independent stdlib RSA verification in the harness), SHA-256/base64url; url.Parse of the callback URI', 'generator freshness (new id differs from the presented one) is a property of the entropy source (C06)'],
     },
     'C11': {
@@ -100,7 +100,8 @@ PROPS = {
         'trusted': ['controller-runtime client and its fake; the watch machinery that turns Secret events into Reconcile calls', 'the write of ClientSecretConfig is unsynchronised with concurrent checks (see C16 known finding)', 'hook: harness/export/internal__k8s/export.go (build tag verif, added by overlay) sets the unexported namespace/k8sClient fields'],
     },
     'C17': {
-        'theorems': ['no_hidden_state', 'accepted_resolved', 'merged_callback_was_checked', 'url_check_meaning', 'merge_fieldwise', 'scope_defaulting', 'rejected_is_error', 'untyped_filter_rejected', 'scope_constant_matches_source'],
+        'translated': ['isCookieNameToken', 'isRootPath'],
+        'theorems': ['code_loader_rules', 'no_hidden_state', 'accepted_resolved', 'merged_callback_was_checked', 'url_check_meaning', 'merge_fieldwise', 'scope_defaulting', 'rejected_is_error', 'untyped_filter_rejected', 'scope_constant_matches_source'],
         'trusted': ['protojson decoding (the model starts from the decoded document); net/url.Parse, redis.ParseURL and net.ParseIP are oracles', 'only the fields that take part in loading are modelled (TLS/CA fields, skip_verify, fetch intervals are carried by the real code, not by the model)', 'hook: harness/export/internal/export.go (build tag verif) constructs LocalConfigFile with a path'],
     },
     'C20': {
